@@ -47,3 +47,20 @@ macro_rules! vcover {
     }};
 }
 pub(crate) use vcover;
+
+// parking_lot slow paths: unreachable in a sequential run; stubbing them avoids a Kani ICE
+// (kani-compiler intrinsics.rs:243) on every path that touches parking_lot::RwLock.
+pub fn pl_lock_exclusive_slow(_l: &parking_lot::RawRwLock, _t: Option<std::time::Instant>) -> bool {
+    assume(false);
+    true
+}
+pub fn pl_lock_shared_slow(_l: &parking_lot::RawRwLock, _r: bool, _t: Option<std::time::Instant>) -> bool {
+    assume(false);
+    true
+}
+pub fn pl_unlock_exclusive_slow(_l: &parking_lot::RawRwLock, _f: bool) {
+    assume(false);
+}
+pub fn pl_unlock_shared_slow(_l: &parking_lot::RawRwLock) {
+    assume(false);
+}
